@@ -24,16 +24,16 @@ import (
 
 func cases(tier string) int {
 	if tier == "thorough" {
-		return 30000
+		return 150000
 	}
-	return 1000
+	return 12000
 }
 
 func cliEvery(tier string) int {
 	if tier == "thorough" {
-		return 100
+		return 300
 	}
-	return 50
+	return 300
 }
 
 var Check = &run.Check{
